@@ -9,9 +9,10 @@ from .. import progs, corpus
 
 ID = "C07"
 LEAN_MODULES = ["PycModel.Properties.C07"]
-NAMESPACES = ["PycModel.C07", "PycModel.Tables", "PycModel.TablesG"]
+NAMESPACES = ["PycModel.C07", "PycModel.Tables", "PycModel.TablesG", "PycModel.GenParen"]
 REQUIRED_THEOREMS = ["PycModel.TablesG.impl_gen_prec_is_parser_prec", "PycModel.TablesG.model_gen_precedence",
-                     "PycModel.TablesG.model_gen_visit_methods"]
+                     "PycModel.TablesG.model_gen_visit_methods",
+                     "PycModel.C07.binary_parenthesisation_sufficient", "PycModel.GenParen.wf_genP", "PycModel.GenParen.toVal_genP"]
 LEVEL = "proof"
 TRUSTED = ["Generator.lean is a hand-written model of c_generator.py, tied by differential runs (text equality on every program of the pool, both configurations)"]
 ASSUMPTIONS = []
